@@ -81,6 +81,17 @@ def _mi(shard, ctx, col, np):
                         try:
                             d = scared.MIADistinguisher(bin_edges=ed, partitions=parts, precision=prec)
                             Xs = X.astype(tdt); Ys = Y.astype('uint8')
+                            if split == 1:
+                                # the other documented way to configure edges: assign the public attribute after construction, on an object built with
+                                # the default bin count (run on a slice of the packed columns: a wrong bin count must not exhaust memory)
+                                ds = scared.MIADistinguisher(partitions=parts, precision=prec); ds.bin_edges = ed
+                                cs, cw = slice(0, None, max(1, Xs.shape[1] // 150)), slice(0, None, max(1, Ys.shape[1] // 40))
+                                ds.update(Xs[:, cs], Ys[:, cw]); gs = np.asarray(ds.compute(), dtype='float64')
+                                rs = ref_v[cw, cs]; dfn = defined_v[cw, cs]
+                                col.transitions += 2; col.evaluations += rs.size; col.states += rs.size
+                                bad = (gs.shape != rs.shape) or bool(((~dfn) & ~np.isnan(gs)).any()) or bool((dfn & ~(np.abs(np.where(dfn, gs - rs, 0.0)) <= 1e-9)).any())
+                                if bad:
+                                    col.violation('C13/mi/edges-assigned-after-construction', 'MIADistinguisher(); d.bin_edges = %s gives another result than the same edges given to the constructor / the definition' % (ed,), case)
                             if split is None: d.update(Xs, Ys)
                             else:
                                 d.update(Xs[:split], Ys[:split]); d.compute(); d.update(Xs[split:], Ys[split:])
